@@ -9,6 +9,8 @@ from . import evalrules as er
 from . import c01
 from . import tr
 
+from .common import Guard  # noqa: E402
+
 PROP = 'C11'
 DECIDED = [
     'R1: Config evaluates a deep copy: the tree handed to EvalContext.evaluate is copy.deepcopy of the tree retained as _source.',
@@ -106,11 +108,13 @@ def r3(repo, run):
 
 
 def check(repo, run, tier):
-    er.evaluate_a_copy(repo, run, 'C11.R1')
-    r2(repo, run)
-    er.who_may_evaluate(repo, run, 'C11.R2')
-    r3(repo, run)
-    c01.r4(repo, run) if False else _r4(repo, run)
+    g = Guard()
+    g(er.evaluate_a_copy, repo, run, 'C11.R1')
+    g(r2, repo, run)
+    g(er.who_may_evaluate, repo, run, 'C11.R2')
+    g(r3, repo, run)
+    g(_r4, repo, run)
+    g.done()
 
 
 def _r4(repo, run):
